@@ -92,7 +92,8 @@ def grammar_check(ctx, what, data, expect_sigs=None, sigp='C20'):
     ctx.checked()
     sh = renc.recognise(data)
     if sh.errors:
-        kind = 'mdc-outside-container' if any('tags [19' in e or 'tag 19' in e for e in sh.errors) else 'not-derivable'
+        kind = 'mdc-outside-container' if any('tags [19' in e or 'tag 19' in e for e in sh.errors) else \
+            'misframed' if any(e.startswith('framing') for e in sh.errors) else 'not-derivable'
         ctx.viol('%s:grammar:%s' % (sigp, kind), '%s: export is not derivable from the RFC 4880 11.3 grammar: %s' % (what, sh.errors[:2]))
     if sh.kind == 'encrypted':
         return sh
@@ -202,6 +203,10 @@ def execute(case, ctx):
                 continue
             raw = bytes(msg)
             wire = raw
+            try:
+                split_packets(raw)
+            except WireError as e:
+                ctx.viol('C20:export-misframed', 'the export of the message is not a sequence of whole packets: %s' % e)
             for k in st.get('perturb', []):
                 if k in ('reframe_old', 'reframe_5'):
                     wire = reframe_bytes(wire, k)
